@@ -231,19 +231,6 @@ def _rk(c):
     return c.args.get("rk")
 
 
-def _pair_wrong(c):
-    """A-06: positional pairing of intersect(a,b) with intersect(b,a) changes the result"""
-    a = c.args
-    if c.op not in ("mul", "eq") or _rk(c) != "sparse":
-        return False
-    A = {tuple(s): v for s, v in zip(a["subs"], a["vals"])}
-    B = {tuple(s): v for s, v in zip(a["bsubs"], a["bvals"])}
-    ca = [tuple(s) for s in a["subs"] if tuple(s) in B]       # common subscripts in self's order
-    cb = [tuple(s) for s in a["bsubs"] if tuple(s) in A]      # ... in other's order
-    f = (lambda x, y: x * y) if c.op == "mul" else (lambda x, y: x == y)
-    return any(f(A[sb], B[sa]) != f(A[sb], B[sb]) for sa, sb in zip(ca, cb))
-
-
 def _div_sparse_bad(c):
     """A-07: sparse / sparse is right only when both operands have the same support stored in aligned order"""
     a = c.args
@@ -262,44 +249,10 @@ def _div_dense_00(c):
     return any(x == 0 and y == 0 for x, y in zip(A, a["bd"]))
 
 
-def _elemfun_negative(c):
-    if not c.op.startswith("elemfun:"):
-        return False
-    g = U.ELEMFUNS[c.op.split(":")[1]][0]
-    return any(g(v) < 0 for v in c.args["vals"])
-
-
-def _eq_scalar_len(c):
-    a = c.args
-    if c.op != "eq" or _rk(c) != "scalar" or a["c"] == 0:
-        return False
-    return U.nnz_a(a) == 0 or sum(1 for v in a["vals"] if v == a["c"]) != U.nnz_a(a)
-
-
-def _ne_scalar_len(c):
-    a = c.args
-    if c.op != "ne" or _rk(c) != "scalar":
-        return False
-    if a["c"] == 0:
-        return U.nnz_a(a) == 0
-    return any(v != a["c"] for v in a["vals"])
-
-
 TRIGGERS = {
-    "dense_rhs_single_nonzero": lambda c: _rk(c) == "dense" and U.nnz_a(c.args) == 1 and c.op in ("mul", "div", "and", "eq"),
-    "dense_rhs_empty_operand": lambda c: _rk(c) == "dense" and U.nnz_a(c.args) == 0 and c.op in ("mul", "div", "and"),
-    "eq_dense_exactly_one_zero": lambda c: c.op == "eq" and _rk(c) == "dense" and sum(1 for x in c.args["bd"] if x == 0) == 1,
-    "logic_exactly_one_empty": lambda c: c.op in ("and", "or", "xor") and _rk(c) == "sparse"
-                                         and (U.nnz_a(c.args) == 0) != (U.nnz_b(c.args) == 0),
-    "and_dense_zero_at_stored": lambda c: c.op == "and" and _rk(c) == "dense" and U.nnz_a(c.args) >= 2 and any(
-        y == 0 and x != 0 for x, y in zip(U.dense_of(c.args["shape"], c.args["subs"], c.args["vals"]), c.args["bd"])),
-    "div_zero_scalar_empty_operand": lambda c: c.op == "div" and _rk(c) == "scalar" and c.args["c"] == 0 and U.nnz_a(c.args) == 0,
-    "pairing_by_position_differs": _pair_wrong,
+    # only the OPEN findings keep a trigger (A-07 sparse/sparse division, C03-N5 sparse/dense division at common zeros)
     "div_sparse_supports_differ_or_misaligned": _div_sparse_bad,
     "div_dense_common_zero": _div_dense_00,
-    "elemfun_negative_result": _elemfun_negative,
-    "eq_scalar_selected_ne_stored": _eq_scalar_len,
-    "ne_scalar_value_count": _ne_scalar_len,
 }
 
 
@@ -312,17 +265,7 @@ def _witness(op, args):
 
 W22 = {"shape": [2, 2]}
 WITNESS_INPUTS = {
-    "A-05": ("mul", dict(W22, subs=[[1, 0]], vals=[4], rk="dense", bd=[1, 0, 0, 3])),
-    "A-06": ("mul", dict(W22, subs=[[1, 1], [0, 0]], vals=[3, 2], rk="sparse", bsubs=[[0, 0], [1, 1]], bvals=[5, 7])),
     "A-07": ("div", dict(W22, subs=[[1, 0]], vals=[4], rk="sparse", bsubs=[[1, 1], [0, 0]], bvals=[3, 2])),
-    "A-09": ("elemfun:negate", dict(W22, subs=[[1, 1], [0, 0]], vals=[3, 2])),
-    "A-10": ("eq", dict(W22, subs=[[1, 1], [0, 0]], vals=[3, 2], rk="scalar", c=2)),
-    "A-11": ("ne", dict(W22, subs=[[1, 1], [0, 0]], vals=[3, 2], rk="scalar", c=2)),
-    "C03-N1": ("mul", dict(W22, subs=[], vals=[], rk="dense", bd=[1, 0, 0, 3])),
-    "C03-N2": ("eq", dict(W22, subs=[[0, 1], [1, 1]], vals=[3, -1], rk="dense", bd=[0, 2, 3, -2])),
-    "C03-N3": ("and", dict(W22, subs=[], vals=[], rk="sparse", bsubs=[[1, 1], [0, 0]], bvals=[3, 2])),
-    "C03-N4": ("div", dict(W22, subs=[], vals=[], rk="scalar", c=0)),
-    "C03-N6": ("and", dict(W22, subs=[[0, 1], [1, 1]], vals=[3, 3], rk="dense", bd=[0, 0, 3, 0])),
     "C03-N5": ("div", dict(W22, subs=[[1, 1], [0, 0]], vals=[3, 2], rk="dense", bd=[1, 0, 2, 3])),
 }
 WITNESSES = {k: _witness(*v) for k, v in WITNESS_INPUTS.items()}
